@@ -208,6 +208,48 @@ def pair_part(ck):
     return {"pairs_validated": len(P), "pair_states": st["states"], "pair_runs": len(jobs), "pairs_discarded_known_finding_elsewhere": discarded}
 
 
+def stepping_part(ck):
+    """calls = evaluations also for the stepping API outside run(): a fresh sampler loads a checkpoint taken at a positive
+    temperature and is stepped with sample() only (clause CallsExact of PSRun, evaluated on the counters of that history)."""
+    core.import_repo()
+    import glob
+    import shutil
+    import tempfile
+    import warnings
+
+    warnings.filterwarnings("ignore")
+    import numpy as np
+    from vlib import drivers, psrun
+
+    done = 0
+    for i, conf in enumerate([dict(clustering=False, n_particles=8), dict(clustering=True, sample="rwm", evaluation="blobs", n_particles=8), dict(clustering=False, evaluation="vector", n_particles=8)]):
+        out_dir = tempfile.mkdtemp(prefix="c13step_")
+        try:
+            np.random.seed(1350 + i + ck.seed)
+            a, _ = drivers.build_sampler(conf, None, out_dir=out_dir)
+            a.run(n_total=24, progress=False, save_every=1)
+            files = sorted(glob.glob(os.path.join(out_dir, "ps_[0-9]*.state")), key=lambda f: int(os.path.basename(f)[3:-6]))
+            rec = psrun.Recorder(2, have_blobs=(conf.get("evaluation") == "blobs"), label="stepping")
+            for f in files[len(files) // 2:][:2]:
+                b, _ = drivers.build_sampler(conf, rec, out_dir=out_dir)
+                b.load_state(f)
+                if not (b.state.get_current("beta") or 0.0) > 0.0:
+                    continue
+                c0, e0 = int(b.state.get_current("calls")), rec.evals
+                for _ in range(2):
+                    b.sample()
+                dc, de = int(b.state.get_current("calls")) - c0, rec.evals - e0
+                done += 1
+                if dc != de:
+                    ck.violation("stepping:calls", f"load_state({os.path.basename(f)}) + 2 x sample() without run(): {de} likelihood evaluations, calls advanced by {dc} ({conf})",
+                                 {"conf": conf, "checkpoint": os.path.basename(f), "evaluations": de, "calls_booked": dc})
+        finally:
+            shutil.rmtree(out_dir, ignore_errors=True)
+    if done == 0 and not ck.violations:
+        raise RuntimeError("stepping part vacuous: no checkpoint at a positive temperature")
+    return {"stepping_sequences_load_then_sample": done}
+
+
 def main():
     ck = core.Check("C13", "model_checking")
     if ck.args.replay:
@@ -226,10 +268,15 @@ def main():
     for k, j in enumerate(jobs):
         if k % 3 == 0:
             j["manual_iters"] = 2
+    # a pool that fails once part-way through a batch: the run may die of it, but if it goes on the count must stay exact
+    for i, fm in enumerate((2, 5)):
+        jobs.append({"conf": dict(n_particles=8, pool="faulty", fail_at_map=fm, clustering=False, sample=("rwm" if i else "tpcn")), "seed": 1330 + i + ck.seed,
+                     "label": f"faulty pool (map #{fm} fails)", "n_total": 24})
     sc, traces = sysrun.system_part(ck, "C13", jobs, lambda t: (t["meta"]["label"], t["meta"]["seed"]) if any(e["ev"] == "MutateEnd" for e in t["events"]) else None)
     cov.update(sc)
     pc = pair_part(ck)
     cov.update(pc)
+    cov.update(stepping_part(ck))
     # calls are counted exactly across save / resume too (evaluations made while resuming belong to the run)
     from vlib import procs, psrun
 
